@@ -648,3 +648,23 @@ v("c13-iface-without-args-skips-required-check", "C13", "EMPTINESS-GUARD", T + "
   "            if not iface_field.args:\n                continue\n            # Assert each interface field arg is implemented.\n            for arg_name, iface_arg in iface_field.args.items():\n")
 v("c13-extended-schema-inherits-assume-valid", "C13", "ASSUME-VALID-FRESH", U + "extend_schema.py",
   "                    assume_valid=assume_valid,\n", "                    assume_valid=assume_valid or config[\"assume_valid\"],\n")
+
+# -- round 4: C19 ------------------------------------------------------------------------------------------
+MS = U + "map_schema_config.py"
+v("c19-map-args-in-place", "C19", "PARAM-READONLY", MS,
+  "            new_argument_map[arg_name] = GraphQLArgument(**mapped_arg)\n        return new_argument_map\n",
+  "            argument_map[arg_name] = GraphQLArgument(**mapped_arg)\n        return argument_map\n")
+v("c19-map-args-copy-then-write", "C19", "PARAM-READONLY", MS,
+  "            new_argument_map[arg_name] = GraphQLArgument(**mapped_arg)\n        return new_argument_map\n",
+  "            new_argument_map[arg_name] = GraphQLArgument(**mapped_arg)\n        argument_map = dict(new_argument_map)\n        argument_map.update(new_argument_map)\n        return argument_map\n",
+  expect="silent")
+v("c19-arg-kwargs-literal-incomplete", "C19", "KWARGS-COMPLETE", MS,
+  "            mapped_arg = merge_kwargs(\n                arg.to_kwargs(), type_=get_type(cast(\"GraphQLNamedType\", arg.type))\n            )\n",
+  "            mapped_arg: GraphQLArgumentKwargs = {\n                \"type_\": get_type(cast(\"GraphQLNamedType\", arg.type)),  # type: ignore\n                \"default_value\": arg.default_value,\n                \"default\": arg.default,\n                \"description\": arg.description,\n                \"out_name\": arg.out_name,\n                \"extensions\": arg.extensions,\n                \"ast_node\": arg.ast_node,\n            }\n")
+v("c19-arg-kwargs-literal-complete", "C19", "KWARGS-COMPLETE", MS,
+  "            mapped_arg = merge_kwargs(\n                arg.to_kwargs(), type_=get_type(cast(\"GraphQLNamedType\", arg.type))\n            )\n",
+  "            mapped_arg: GraphQLArgumentKwargs = {\n                \"type_\": get_type(cast(\"GraphQLNamedType\", arg.type)),  # type: ignore\n                \"default_value\": arg.default_value,\n                \"default\": arg.default,\n                \"description\": arg.description,\n                \"deprecation_reason\": arg.deprecation_reason,\n                \"out_name\": arg.out_name,\n                \"extensions\": arg.extensions,\n                \"ast_node\": arg.ast_node,\n            }\n",
+  expect="silent")
+v("c19-root-types-loop-break", "C19", "INDEPENDENT-KEYS", MS,
+  "    query, mutation = schema_config[\"query\"], schema_config[\"mutation\"]\n",
+  "    roots: dict = dict.fromkeys((\"query\", \"mutation\", \"subscription\"))\n    for operation in roots:\n        root = schema_config[operation]  # type: ignore\n        if root is None:\n            break\n        roots[operation] = root\n    query, mutation = schema_config[\"query\"], schema_config[\"mutation\"]\n")
